@@ -39,6 +39,53 @@ func lockInfo(fn *ssa.Function) *LockInfo {
 	return li
 }
 
+// entryHeld: the locks every caller of fn holds at the call (helpers that are only ever called
+// with a lock held, e.g. a "publish" method called under the writer mutex). Only static calls
+// count; a function whose value is taken, or that has no caller, has no entry locks. Keys are
+// translated from the caller's parameter numbering to the callee's.
+func entryHeld(w *World, fn *ssa.Function, depth int) lockState {
+	edges := w.CG().In[fn]
+	if len(edges) == 0 || depth > 2 {
+		return nil
+	}
+	var acc lockState
+	first := true
+	for _, e := range edges {
+		ci, isCall := e.Site.(ssa.CallInstruction)
+		if e.Kind != "static" || !isCall || e.Caller == fn {
+			return nil
+		}
+		held := lockInfo(e.Caller).At[e.Site].clone()
+		for k, v := range entryHeld(w, e.Caller, depth+1) {
+			if _, has := held[k]; !has {
+				held[k] = v
+			}
+		}
+		tr := lockState{}
+		for k, v := range held {
+			dot := strings.IndexByte(k, '.')
+			if dot < 0 || !strings.HasPrefix(k, "p") {
+				continue
+			}
+			for j, a := range ci.Common().Args {
+				if pa, ok := stripConv(a).(*ssa.Parameter); ok {
+					for i, q := range e.Caller.Params {
+						if q == pa && k[:dot] == fmt.Sprintf("p%d", i) {
+							tr[fmt.Sprintf("p%d", j)+k[dot:]] = v
+						}
+					}
+				}
+			}
+		}
+		if first {
+			acc, first = tr, false
+		} else {
+			acc = meet(acc, tr)
+		}
+	}
+	return acc
+}
+
 // fieldAccesses lists all accesses to fields of struct type t in non-mock module functions.
 func fieldAccesses(w *World, t *types.Named) []fieldAccess {
 	var out []fieldAccess
@@ -60,6 +107,14 @@ func fieldAccesses(w *World, t *types.Named) []fieldAccess {
 				li = lockInfo(fn)
 			}
 			acc := fieldAccess{Fn: fn, Instr: in, Field: f, Held: li.At[in]}
+			if eh := entryHeld(w, fn, 0); len(eh) > 0 {
+				acc.Held = acc.Held.clone()
+				for k, v := range eh {
+					if _, has := acc.Held[k]; !has {
+						acc.Held[k] = v
+					}
+				}
+			}
 			if refs := fa.Referrers(); refs != nil {
 				for _, rf := range *refs {
 					if st, ok := rf.(*ssa.Store); ok && st.Addr == fa {
